@@ -16,7 +16,9 @@
       `parse_include` with its `include_stack` (an `href` that is being parsed
       already → "cyclic include" diagnostic; otherwise a fresh parser for
       `href`, resolved over the finite map `FS`), `parse_type_encoding`
-      attribute by attribute, and the recursion over the element nesting depth;
+      attribute by attribute, and `throw_if_nested_too_deep`: composites and
+      groups nested deeper than `max_nesting_depth` = 64 are a diagnostic, so
+      no pass recurses deeper than that;
       `location_manager::find` is total (offsets past the content are clamped)
       and therefore does not appear;
     * the order validation → emission and the writes of the emission.
@@ -41,17 +43,12 @@ namespace Sbepp.Gen.Pipeline
 /-- (file, function, kind, text) — an extracted site without its line number -/
 abbrev SiteKey := String × String × String × String
 
-/-- input conditions under which an unguarded site fails -/
-inductive Trigger
-  | nestingTooDeep      -- recursion over the element nesting depth of the input
-  deriving DecidableEq, Repr
-
 inductive Guard
   | static (why : String)              -- cannot fail for any input (language level)
   | local_ (why : String)              -- tested in the same function right before the access
   | rule (stage : String) (why : String) -- an earlier stage rejects every input on which the access would fail
   | order (why : String)               -- invariant of sbeppc's own traversal/dispatch order
-  | unguarded (t : Trigger)
+  | unguarded (why : String)            -- nothing prevents the failure (none at present)
   deriving DecidableEq, Repr
 
 def Guard.isUnguarded : Guard → Bool
@@ -100,9 +97,9 @@ def guardTable : List (SiteKey × Guard) := [
   (("messages_compiler.hpp", "get_header_element", "assert", "assert(t);"),
     .rule "validate" "get_level_header_element: a level-header element is a type or a ref to a type"),
   (("messages_compiler.hpp", "make_group_entry", "recursion", "calls make_groups"),
-    .unguarded .nestingTooDeep),
+    .rule "parse" "throw_if_nested_too_deep: schema_parser rejects composites and groups nested deeper than max_nesting_depth = 64, every pass recurses over that nesting only"),
   (("messages_compiler.hpp", "make_group", "recursion", "calls make_group_entry"),
-    .unguarded .nestingTooDeep),
+    .rule "parse" "throw_if_nested_too_deep: schema_parser rejects composites and groups nested deeper than max_nesting_depth = 64, every pass recurses over that nesting only"),
   (("messages_compiler.hpp", "make_first_data_accessor", "frontback", "fmt::arg(\"last_group\", groups.back().name),"),
     .local_ "empty() tested before"),
   (("messages_compiler.hpp", "make_fields_cursor_accessors", "frontback", "const auto& last = *non_const_fields.back();"),
@@ -112,17 +109,17 @@ def guardTable : List (SiteKey × Guard) := [
   (("messages_compiler.hpp", "make_data_cursor_accessors", "frontback", "const auto& first = members.data.front();"),
     .local_ "empty() tested before"),
   (("messages_compiler.hpp", "make_groups", "recursion", "calls make_group"),
-    .unguarded .nestingTooDeep),
+    .rule "parse" "throw_if_nested_too_deep: schema_parser rejects composites and groups nested deeper than max_nesting_depth = 64, every pass recurses over that nesting only"),
   (("messages_compiler.hpp", "compile_message", "optderef", "*message_context.mangled_name);"),
     .local_ "tested by if(x) on the same optional in this function"),
   (("names_generator.hpp", "handle_composite_elements", "recursion", "calls handle_composite_elements"),
-    .unguarded .nestingTooDeep),
+    .rule "parse" "throw_if_nested_too_deep: schema_parser rejects composites and groups nested deeper than max_nesting_depth = 64, every pass recurses over that nesting only"),
   (("names_generator.hpp", "handle_message_level", "recursion", "calls handle_message_level"),
-    .unguarded .nestingTooDeep),
+    .rule "parse" "throw_if_nested_too_deep: schema_parser rejects composites and groups nested deeper than max_nesting_depth = 64, every pass recurses over that nesting only"),
   (("sbe_schema_cpp_validator.hpp", "validate_level_members", "recursion", "calls validate_level_members, validate_name"),
-    .unguarded .nestingTooDeep),
+    .rule "parse" "throw_if_nested_too_deep: schema_parser rejects composites and groups nested deeper than max_nesting_depth = 64, every pass recurses over that nesting only"),
   (("sbe_schema_cpp_validator.hpp", "validate_encoding", "recursion", "calls validate_encoding, validate_name"),
-    .unguarded .nestingTooDeep),
+    .rule "parse" "throw_if_nested_too_deep: schema_parser rejects composites and groups nested deeper than max_nesting_depth = 64, every pass recurses over that nesting only"),
   (("sbe_schema_cpp_validator.hpp", "is_reserved_cpp_identifier", "index", "if((str.size() > 1) && (str[0] == '_')"),
     .local_ "size()/empty() tested in the same condition"),
   (("sbe_schema_cpp_validator.hpp", "is_reserved_cpp_identifier", "index", "&& (std::isupper(static_cast<unsigned char>(str[1]))))"),
@@ -152,7 +149,7 @@ def guardTable : List (SiteKey × Guard) := [
   (("sbe_schema_validator.hpp", "validate_block_length", "optderef", "ctx_manager->get(level).actual_block_length = *level.block_length;"),
     .local_ "tested by if(x) on the same optional in this function"),
   (("sbe_schema_validator.hpp", "validate_members", "recursion", "calls validate_members"),
-    .unguarded .nestingTooDeep),
+    .rule "parse" "throw_if_nested_too_deep: schema_parser rejects composites and groups nested deeper than max_nesting_depth = 64, every pass recurses over that nesting only"),
   (("sbe_schema_validator.hpp", "can_be_parsed_as_fp", "frontback", "if(std::isspace(str.front()))"),
     .local_ "empty() tested before"),
   (("sbe_schema_validator.hpp", "can_be_parsed_as_fp", "frontback", "if((str.front() == '+') || (str.front() == '-'))"),
@@ -190,7 +187,7 @@ def guardTable : List (SiteKey × Guard) := [
   (("sbe_schema_validator.hpp", "validate_optional_value", "optderef", "*value,"),
     .local_ "tested by if(x) on the same optional in this function"),
   (("sbe_schema_validator.hpp", "validate_encoding", "recursion", "calls validate_encoding, validate_public_encoding"),
-    .unguarded .nestingTooDeep),
+    .rule "parse" "throw_if_nested_too_deep: schema_parser rejects composites and groups nested deeper than max_nesting_depth = 64, every pass recurses over that nesting only"),
   (("sbe_schema_validator.hpp", "is_constant_composite_element", "recursion", "calls is_constant_composite_element"),
     .static "overload dispatch (same name, different signature); no cycle"),
   (("sbe_schema_validator.hpp", "is_constant_composite_element", "assert", "assert(enc);"),
@@ -202,7 +199,7 @@ def guardTable : List (SiteKey × Guard) := [
   (("sbe_schema_validator.hpp", "validate_element_offset", "optderef", "current_offset = *element.offset;"),
     .local_ "tested by if(x) on the same optional in this function"),
   (("sbe_schema_validator.hpp", "validate_public_encoding", "recursion", "calls validate_encoding"),
-    .unguarded .nestingTooDeep),
+    .rule "parse" "throw_if_nested_too_deep: schema_parser rejects composites and groups nested deeper than max_nesting_depth = 64, every pass recurses over that nesting only"),
   (("sbe_schema_validator.hpp", "validate_versions", "optderef", "*entity.deprecated_since,"),
     .local_ "tested by if(x) on the same optional in this function"),
   (("sbe_schema_validator.hpp", "validate_versions", "optderef", "*entity.deprecated_since, #2"),
@@ -220,29 +217,29 @@ def guardTable : List (SiteKey × Guard) := [
   (("schema_parser.hpp", "parse_type_encoding", "optderef", "t.length = t.constant_value->size();"),
     .local_ "&& t.constant_value in the same condition"),
   (("schema_parser.hpp", "parse_composite_elements", "recursion", "calls parse_composite_encoding"),
-    .unguarded .nestingTooDeep),
+    .rule "parse" "throw_if_nested_too_deep: schema_parser rejects composites and groups nested deeper than max_nesting_depth = 64, every pass recurses over that nesting only"),
   (("schema_parser.hpp", "parse_composite_encoding", "recursion", "calls parse_composite_elements"),
-    .unguarded .nestingTooDeep),
+    .rule "parse" "throw_if_nested_too_deep: schema_parser rejects composites and groups nested deeper than max_nesting_depth = 64, every pass recurses over that nesting only"),
   (("schema_parser.hpp", "get_optional_numeric_attribute", "optderef", "*as_str,"),
     .local_ "tested by if(x) on the same optional in this function"),
   (("schema_parser.hpp", "get_optional_numeric_attribute", "optderef", "*as_str);"),
     .local_ "tested by if(x) on the same optional in this function"),
   (("schema_parser.hpp", "parse_group_member", "recursion", "calls get_level_members"),
-    .unguarded .nestingTooDeep),
+    .rule "parse" "throw_if_nested_too_deep: schema_parser rejects composites and groups nested deeper than max_nesting_depth = 64, every pass recurses over that nesting only"),
   (("schema_parser.hpp", "get_level_members", "recursion", "calls parse_group_member"),
-    .unguarded .nestingTooDeep),
+    .rule "parse" "throw_if_nested_too_deep: schema_parser rejects composites and groups nested deeper than max_nesting_depth = 64, every pass recurses over that nesting only"),
   (("schema_parser.hpp", "string_to_number_or_throw", "optderef", "return *v;"),
     .local_ "tested by if(x) on the same optional in this function"),
   (("tags_generator.hpp", "generate", "recursion", "calls generate"),
     .static "overload dispatch (same name, different signature); no cycle"),
   (("tags_generator.hpp", "make_tag", "recursion", "calls handle_public_encoding, make_composite_element_tags"),
-    .unguarded .nestingTooDeep),
+    .rule "parse" "throw_if_nested_too_deep: schema_parser rejects composites and groups nested deeper than max_nesting_depth = 64, every pass recurses over that nesting only"),
   (("tags_generator.hpp", "make_tag", "popback", "path.pop_back();"),
     .order "pops what the matching push_back / emplace_back a few lines above in the same function pushed"),
   (("tags_generator.hpp", "make_tag", "popback", "path.pop_back(); #2"),
     .order "pops what the matching push_back / emplace_back a few lines above in the same function pushed"),
   (("tags_generator.hpp", "make_composite_element_tags", "recursion", "calls make_tag"),
-    .unguarded .nestingTooDeep),
+    .rule "parse" "throw_if_nested_too_deep: schema_parser rejects composites and groups nested deeper than max_nesting_depth = 64, every pass recurses over that nesting only"),
   (("tags_generator.hpp", "make_composite_element_tags", "optderef", "make_type_impl_path(*ctx.mangled_name));"),
     .local_ "tested by if(x) on the same optional in this function"),
   (("tags_generator.hpp", "make_tag", "popback", "path.pop_back(); #3"),
@@ -250,17 +247,17 @@ def guardTable : List (SiteKey × Guard) := [
   (("tags_generator.hpp", "make_tag", "optderef", "\"referred_type\", make_type_impl_path(*referred_type_name)));"),
     .local_ "tested by if(x) on the same optional in this function"),
   (("tags_generator.hpp", "handle_public_encoding", "recursion", "calls make_tag"),
-    .unguarded .nestingTooDeep),
+    .rule "parse" "throw_if_nested_too_deep: schema_parser rejects composites and groups nested deeper than max_nesting_depth = 64, every pass recurses over that nesting only"),
   (("tags_generator.hpp", "make_field_tags", "optderef", "fmt::arg(\"type_tag\", *type_tag));"),
     .local_ "tested by if(x) on the same optional in this function"),
   (("tags_generator.hpp", "make_group_tags", "recursion", "calls make_member_tags"),
-    .unguarded .nestingTooDeep),
+    .rule "parse" "throw_if_nested_too_deep: schema_parser rejects composites and groups nested deeper than max_nesting_depth = 64, every pass recurses over that nesting only"),
   (("tags_generator.hpp", "make_group_tags", "popback", "path.pop_back();"),
     .order "pops what the matching push_back / emplace_back a few lines above in the same function pushed"),
   (("tags_generator.hpp", "make_group_tags", "optderef", "make_message_impl_path(*context.mangled_name));"),
     .local_ "tested by if(x) on the same optional in this function"),
   (("tags_generator.hpp", "make_member_tags", "recursion", "calls make_group_tags"),
-    .unguarded .nestingTooDeep),
+    .rule "parse" "throw_if_nested_too_deep: schema_parser rejects composites and groups nested deeper than max_nesting_depth = 64, every pass recurses over that nesting only"),
   (("tags_generator.hpp", "make_message_tag", "popback", "path.pop_back();"),
     .order "pops what the matching push_back / emplace_back a few lines above in the same function pushed"),
   (("tags_generator.hpp", "make_message_tag", "optderef", "m.name, make_message_impl_path(*context.mangled_name));"),
@@ -278,27 +275,27 @@ def guardTable : List (SiteKey × Guard) := [
   (("traits_generator.hpp", "make_deprecated", "optderef", "fmt::arg(\"deprecated_since\", *deprecated_since));"),
     .local_ "tested by if(x) on the same optional in this function"),
   (("traits_generator.hpp", "make_traits", "recursion", "calls make_level_traits, make_traits, make_traits_tag"),
-    .unguarded .nestingTooDeep),
+    .rule "parse" "throw_if_nested_too_deep: schema_parser rejects composites and groups nested deeper than max_nesting_depth = 64, every pass recurses over that nesting only"),
   (("traits_generator.hpp", "get_num_in_group_underlying_type", "get", "const auto& r = std::get<sbe::ref>(*element);"),
     .rule "validate" "get_level_header_element: a level-header element is a type or a ref to a type"),
   (("traits_generator.hpp", "get_group_payload_size", "frontback", "fmt::arg(\"num_in_group_param\", param_names.back()),"),
     .order "the caller pushes the numInGroup parameter name first"),
   (("traits_generator.hpp", "make_group_size_bytes_impl", "recursion", "calls make_group_size_bytes_impl"),
-    .unguarded .nestingTooDeep),
+    .rule "parse" "throw_if_nested_too_deep: schema_parser rejects composites and groups nested deeper than max_nesting_depth = 64, every pass recurses over that nesting only"),
   (("traits_generator.hpp", "make_group_size_bytes_impl", "popback", "path.pop_back();"),
     .order "pops what the matching push_back / emplace_back a few lines above in the same function pushed"),
   (("traits_generator.hpp", "make_size_bytes_params", "assert", "assert(param_names.size() == param_types.size());"),
     .order "names and types are pushed pairwise"),
   (("traits_generator.hpp", "get_group_size_bytes_params", "recursion", "calls get_group_size_bytes_params"),
-    .unguarded .nestingTooDeep),
+    .rule "parse" "throw_if_nested_too_deep: schema_parser rejects composites and groups nested deeper than max_nesting_depth = 64, every pass recurses over that nesting only"),
   (("traits_generator.hpp", "get_group_size_bytes_params", "popback", "path.pop_back();"),
     .order "pops what the matching push_back / emplace_back a few lines above in the same function pushed"),
   (("traits_generator.hpp", "make_traits_tag", "recursion", "calls make_traits_tag"),
-    .unguarded .nestingTooDeep),
+    .rule "parse" "throw_if_nested_too_deep: schema_parser rejects composites and groups nested deeper than max_nesting_depth = 64, every pass recurses over that nesting only"),
   (("traits_generator.hpp", "make_member_traits", "recursion", "calls make_traits"),
-    .unguarded .nestingTooDeep),
+    .rule "parse" "throw_if_nested_too_deep: schema_parser rejects composites and groups nested deeper than max_nesting_depth = 64, every pass recurses over that nesting only"),
   (("traits_generator.hpp", "make_level_traits", "recursion", "calls make_member_traits"),
-    .unguarded .nestingTooDeep),
+    .rule "parse" "throw_if_nested_too_deep: schema_parser rejects composites and groups nested deeper than max_nesting_depth = 64, every pass recurses over that nesting only"),
   (("types_compiler.hpp", "compile", "popback", "dependencies.pop_back();"),
     .order "pops what the matching push_back / emplace_back a few lines above in the same function pushed"),
   (("types_compiler.hpp", "get_min_value", "optderef", "*t.min_value, t.primitive_type);"),
@@ -324,13 +321,13 @@ def guardTable : List (SiteKey × Guard) := [
   (("types_compiler.hpp", "set_impl_and_public_types", "optderef", "*context.mangled_name);"),
     .local_ "tested by if(x) on the same optional in this function"),
   (("types_compiler.hpp", "compile_encoding", "recursion", "calls make_element_accessors"),
-    .unguarded .nestingTooDeep),
+    .rule "parse" "throw_if_nested_too_deep: schema_parser rejects composites and groups nested deeper than max_nesting_depth = 64, every pass recurses over that nesting only"),
   (("types_compiler.hpp", "value_ref_to_enum_value", "recursion", "calls compile_public_encoding"),
-    .unguarded .nestingTooDeep),
+    .rule "parse" "throw_if_nested_too_deep: schema_parser rejects composites and groups nested deeper than max_nesting_depth = 64, every pass recurses over that nesting only"),
   (("types_compiler.hpp", "value_ref_to_enum_value", "get", "const auto& e = std::get<sbe::enumeration>(enc);"),
     .rule "validate" "find_value_ref: the encoding named by valueRef exists and is an enum"),
   (("types_compiler.hpp", "get_const_value", "recursion", "calls value_ref_to_enum_value"),
-    .unguarded .nestingTooDeep),
+    .rule "parse" "throw_if_nested_too_deep: schema_parser rejects composites and groups nested deeper than max_nesting_depth = 64, every pass recurses over that nesting only"),
   (("types_compiler.hpp", "get_const_value", "assert", "assert(t.presence == field_presence::constant);"),
     .order "called for constant types only (dispatch on presence)"),
   (("types_compiler.hpp", "get_const_value", "assert", "assert(t.value_ref || t.constant_value);"),
@@ -352,7 +349,7 @@ def guardTable : List (SiteKey × Guard) := [
   (("types_compiler.hpp", "make_children_visit_calls", "get", "fmt::arg(\"tag\", std::get<2>(visit_info))));"),
     .static "std::get by type/index on a std::tuple: resolved at compile time"),
   (("types_compiler.hpp", "make_element_accessors", "recursion", "calls compile_encoding, compile_public_encoding, get_const_value"),
-    .unguarded .nestingTooDeep),
+    .rule "parse" "throw_if_nested_too_deep: schema_parser rejects composites and groups nested deeper than max_nesting_depth = 64, every pass recurses over that nesting only"),
   (("types_compiler.hpp", "make_element_accessors", "optderef", "*context.offset_in_composite,"),
     .order "validate_element_offset stores offset_in_composite for every non-constant element"),
   (("types_compiler.hpp", "make_element_accessors", "optderef", "*context.offset_in_composite, #2"),
@@ -360,7 +357,7 @@ def guardTable : List (SiteKey × Guard) := [
   (("types_compiler.hpp", "make_element_accessors", "optderef", "*context.offset_in_composite, #3"),
     .order "validate_element_offset stores offset_in_composite for every non-constant element"),
   (("types_compiler.hpp", "compile_public_encoding", "recursion", "calls compile_encoding"),
-    .unguarded .nestingTooDeep),
+    .rule "parse" "throw_if_nested_too_deep: schema_parser rejects composites and groups nested deeper than max_nesting_depth = 64, every pass recurses over that nesting only"),
   (("types_compiler.hpp", "compile_public_encoding", "assert", "assert(!dependencies.empty());"),
     .order "compile pushes a dependency set before the first public encoding"),
   (("types_compiler.hpp", "compile_public_encoding", "frontback", "dependencies.back().emplace(name);"),
@@ -417,11 +414,6 @@ def guardTable : List (SiteKey × Guard) := [
     .rule "validate" "callers name an encoding whose kind the validator checked (header composite, header element type, valueRef enum)")
 ]
 def guardOf (s : SiteKey) : Option Guard := guardTable.lookup s
-
-/-- the model location of each trigger: the extracted site that fails (the
-    first of the recursion family over the nesting depth) -/
-def siteOf : Trigger → SiteKey
-  | .nestingTooDeep => ("schema_parser.hpp", "parse_composite_elements", "recursion", "calls parse_composite_encoding")
 
 /-- the recursion `parse_include → schema_parser → parse_schema_content`; the
     model's fuel can only run out here (and never does with `fs.length < fuel`) -/
@@ -520,8 +512,6 @@ structure Parsed where
 
 /-- everything the model does not transliterate -/
 structure Env where
-  /-- element nesting depth the process stack survives -/
-  stackLimit : Nat
   /-- the parser's remaining diagnostics (duplicate names, missing attributes of
       elements other than `<type>`, member order …), lumped after the traversal -/
   parseDiag : Parsed → Option String
@@ -538,7 +528,6 @@ structure Env where
 /-- stops of the parsing stages -/
 inductive PStop
   | diag (msg : String)
-  | crash (t : Trigger)
   | fuel
   deriving Repr, DecidableEq
 
@@ -585,38 +574,45 @@ def parseType (path : String) (n : TNode) : PM Unit := do
   optNum path n "sinceVersion" 64
   optNum path n "deprecated" 64
 
-def checkDepth (env : Env) (n : TNode) : PM Unit :=
-  if env.stackLimit < n.depth then throw (.crash .nestingTooDeep) else pure ()
+/-- `schema_parser::max_nesting_depth` -/
+def maxNestingDepth : Nat := 64
 
-/-- one node of the traversal: recursion depth, and for `<type>` the attribute checks -/
-def checkNode (env : Env) (path : String) (n : TNode) : PM Unit := do
-  checkDepth env n
+/-- `throw_if_nested_too_deep` at the entry of `parse_composite_encoding` and
+    `parse_group_member` (`depth`: 1 for a top-level composite / a message-level group) -/
+def checkDepth (path : String) (n : TNode) : PM Unit :=
+  if (n.kind = .composite ∨ n.kind = .group) ∧ maxNestingDepth < n.depth then
+    throw (.diag (loc path ++ ": nesting is too deep, at most 64 levels are supported"))
+  else pure ()
+
+/-- one node of the traversal: nesting depth, and for `<type>` the attribute checks -/
+def checkNode (path : String) (n : TNode) : PM Unit := do
+  checkDepth path n
   match n.kind with
   | .type => parseType path n
   | _ => pure ()
 
-def checkNodes (env : Env) (path : String) : List TNode → PM Unit
+def checkNodes (path : String) : List TNode → PM Unit
   | [] => pure ()
-  | n :: r => do checkNode env path n; checkNodes env path r
+  | n :: r => do checkNode path n; checkNodes path r
 
 def Parsed.add (p : Parsed) (ns : List TNode) : Parsed := { p with nodes := p.nodes ++ ns }
 
 /-- `parse_schema_content` over the children of `messageSchema` / of an included
     document's root; `incl` resolves one `<include>` -/
-def parseItemsWith (env : Env) (path : String) (incl : TNode → Parsed → PM Parsed) :
+def parseItemsWith (path : String) (incl : TNode → Parsed → PM Parsed) :
     List Item → Parsed → PM Parsed
   | [], acc => pure acc
   | .types _ desc :: r, acc => do
-      checkNodes env path desc
-      parseItemsWith env path incl r (acc.add desc)
+      checkNodes path desc
+      parseItemsWith path incl r (acc.add desc)
   | .message n desc :: r, acc => do
-      checkNodes env path (n :: desc)
-      parseItemsWith env path incl r (acc.add (n :: desc))
+      checkNodes path (n :: desc)
+      parseItemsWith path incl r (acc.add (n :: desc))
   | .incl n :: r, acc => do
       let acc' ← incl n acc
-      parseItemsWith env path incl r acc'
-  | .other _ :: r, acc => parseItemsWith env path incl r acc     -- warning "unhandled XML node"
-  | .schema _ _ :: r, acc => parseItemsWith env path incl r acc  -- inside content: unhandled node
+      parseItemsWith path incl r acc'
+  | .other _ :: r, acc => parseItemsWith path incl r acc     -- warning "unhandled XML node"
+  | .schema _ _ :: r, acc => parseItemsWith path incl r acc  -- inside content: unhandled node
 
 /-- `fs_provider::read_file` + `parse_xml` -/
 def loadDoc (fs : FS) (path : String) : PM (List Item) :=
@@ -630,7 +626,7 @@ def loadDoc (fs : FS) (path : String) : PM (List Item) :=
     whose parsing is in progress, outermost first); otherwise a new
     `schema_parser` for `href`, whose whole top level is content, with the
     stack extended by `href`.  `fuel` bounds the nesting of parsers. -/
-def parseIncl (env : Env) (fs : FS) (path : String) (stack : List String) : Nat → TNode → Parsed → PM Parsed
+def parseIncl (fs : FS) (path : String) (stack : List String) : Nat → TNode → Parsed → PM Parsed
   | 0, n, _ => do
       let href ← requiredNonEmpty path n "href"
       if href ∈ stack then throw (.diag (loc path ++ ": cyclic include of `" ++ href ++ "`"))
@@ -640,7 +636,7 @@ def parseIncl (env : Env) (fs : FS) (path : String) (stack : List String) : Nat 
       if href ∈ stack then throw (.diag (loc path ++ ": cyclic include of `" ++ href ++ "`"))
       else do
         let top ← loadDoc fs href
-        parseItemsWith env href (parseIncl env fs href (stack ++ [href]) fuel) top acc
+        parseItemsWith href (parseIncl fs href (stack ++ [href]) fuel) top acc
 
 /-- `get_message_schema_node` -/
 def findSchema (path : String) : List Item → PM (TNode × List Item)
@@ -663,11 +659,11 @@ def parseSchemaAttrs (path : String) (n : TNode) : PM Unit := do
   reqNum path n "version" 64
   checkByteOrder path n
 
-def parseMain (env : Env) (fs : FS) (fuel : Nat) (path : String) : PM Parsed := do
+def parseMain (fs : FS) (fuel : Nat) (path : String) : PM Parsed := do
   let top ← loadDoc fs path
   let (n, content) ← findSchema path top
   parseSchemaAttrs path n
-  parseItemsWith env path (parseIncl env fs path [path] fuel) content { schemaAttrs := n.attrs }
+  parseItemsWith path (parseIncl fs path [path] fuel) content { schemaAttrs := n.attrs }
 
 /-! ## after parsing -/
 
@@ -685,7 +681,7 @@ def front (env : Env) (fuel : Nat) (argv : List String) (fs : FS) : Except Stop 
   | .exit0 => .ok none
   | .error msg => .error (.p (.diag msg))
   | .go cfg =>
-    match parseMain env fs fuel cfg.file with
+    match parseMain fs fuel cfg.file with
     | .error e => .error (.p e)
     | .ok parsed =>
       match env.parseDiag parsed with
@@ -726,7 +722,6 @@ def Outcome.isCrash : Outcome → Bool
 /-- `catch(const sbe_error& e) { reporter.error("{}", e.what()); return 1; }` -/
 def report : Stop → Outcome
   | .p (.diag msg) => .diag msg
-  | .p (.crash t) => .crash (siteOf t)
   | .p .fuel => .crash includeSite     -- a recursion without bound would exhaust the stack
   | .guarded s => .crash s
 
